@@ -14,7 +14,9 @@ def run(scratch, budget_s=900):
     dst = os.path.join(scratch.dir, "kani_cc")
     shutil.copytree(src, dst)
     ct = os.path.join(dst, "Cargo.toml")
-    open(ct, "w").write(open(ct).read().replace("REPO_PATH", scratch.repo))
+    manifest = open(ct).read().replace("REPO_PATH", scratch.repo)
+    with open(ct, "w") as fh:
+        fh.write(manifest)
     shutil.copy(os.path.join(scratch.repo, "Cargo.lock"), dst)
     results = {}
     t0 = time.time()
